@@ -118,6 +118,9 @@ func honestNrOp(kp *KeyPair, tree T, ctx, nonce *big.Int, class, label string) O
 }
 
 func genC11(g *Rng, tier string, emit func(Op)) {
+	for _, o := range highIndexSplitOps(g, fixedKey("k1024a", true), "C11/split-at-high-index") {
+		emit(o)
+	}
 	keys := []*KeyPair{fixedKey("k1024a", true)}
 	depth, nscripts := 4, 14
 	nhonest := 0
